@@ -26,7 +26,7 @@ class Unsupported(Exception):
     pass
 
 
-def materialise(g):
+def materialise(g, want_objs=False):
     """Real Python objects for graph g (list of {kind, kids}); returns the object for node 1."""
     objs = {}
     state = {}
@@ -66,7 +66,10 @@ def materialise(g):
                 val[KEYS[i][6:]] = target(t)
             return val
         raise MachineryError("unknown kind %r" % node["kind"])
-    return build(1)
+    root = build(1)
+    if want_objs:
+        return root, objs
+    return root
 
 
 def scalar_label(v):
@@ -119,7 +122,7 @@ def convert(g, entry, strategy, check, ignore):
     rec = {"g": g, "check": check, "ignore": ignore, "strict": entry != "json", "outcome": "value", "paths": [],
            "copied": True, "copyPaths": [], "exc": ""}
     try:
-        obj = materialise(g)
+        obj, objs = materialise(g, True)
     except Unsupported:
         return None
     opts = graphtage.BuildOptions(allow_key_edits=(strategy != "none"), auto_match_keys=(strategy == "auto"),
@@ -132,6 +135,17 @@ def convert(g, entry, strategy, check, ignore):
                 tree = gjson.build_tree(obj, opts)
             elif entry == "basic":
                 tree = gbuilder.BasicBuilder(opts).build_tree(obj)
+            elif entry == "basic-reused":
+                # one builder instance used for several conversions: first every inner container object on its own
+                # (whatever that yields, including a cycle error), then the whole structure
+                b = gbuilder.BasicBuilder(opts)
+                for n in sorted(objs):
+                    if n != 1 and isinstance(objs[n], (list, dict)):
+                        try:
+                            b.build_tree(objs[n])
+                        except Exception:
+                            pass
+                tree = b.build_tree(obj)
             else:
                 tree = pydiff.build_tree(obj, opts)
             sys.setrecursionlimit(old)
@@ -232,7 +246,7 @@ def run():
         graphs.append(g)
     chk.extra["random_graphs"] = n_random
     jobs = []
-    combos = [(e, s, c, i) for e in ("json", "basic", "pydiff") for s in ("auto", "match", "none")
+    combos = [(e, s, c, i) for e in ("json", "basic", "pydiff", "basic-reused") for s in ("auto", "match", "none")
               for c, i in ((True, False), (True, True), (False, False))]
     per_graph = 4 if t == "quick" else len(combos)
     skipped_unspecified = 0
@@ -285,7 +299,8 @@ def run():
     chk.rule = ("cases = (object graph, entry point, dictionary strategy, cycle options): every graph enumerated by TLC "
                 "(objects of kind list/tuple/dict with slots pointing at any object or scalar: trees, DAGs with sharing, "
                 "self- and mutual cycles), materialised as Python objects and converted by json.build_tree, "
-                "BasicBuilder.build_tree and pydiff.build_tree; %s option combinations per graph; distinct by the tuple; "
+                "BasicBuilder.build_tree (a fresh builder, and one builder instance reused after converting the inner objects) and "
+                "pydiff.build_tree; %s option combinations per graph; distinct by the tuple; "
                 "non-trivial = some slot points at a container object" % ("4 sampled" if t == "quick" else "all"))
     chk.assumptions = ["the abstract value of a tree is the path set of TreeNode.to_obj() (tuples as lists)",
                        "cycles through tuples only cannot be built in Python and are skipped",
